@@ -526,6 +526,13 @@ def bv_spellings(v, w):
     return out
 
 
+def bv_value(rng, w):
+    """a value of width w: often 0, 1, all ones, exactly 2^(w-1) (the most negative) or next to it"""
+    if rng.random() < 0.45:
+        return rng.choice([0, 1, 2 ** w - 1, 2 ** (w - 1), max(2 ** (w - 1) - 1, 0), min(2 ** (w - 1) + 1, 2 ** w - 1)])
+    return rng.randrange(2 ** w)
+
+
 def bvval_py(val):
     kind, v = val
     if kind in ("int", "str"):
@@ -592,6 +599,7 @@ class History(object):
         self.norm_checks = []
         self.max_widths = 24
         self.active = [0]
+        self.churn = 0
         self.akid = {}
         self.tyids = {}
         self.keep = []
@@ -1197,7 +1205,7 @@ class History(object):
         if k == "S" and roll < 0.5:
             return self.build(e, "String", rng.choice(STRINGS))
         if k == "V" and roll < 0.5:
-            v = rng.randrange(2 ** t[1]) if rng.random() < 0.7 else rng.choice([0, 1, 2 ** t[1] - 1])
+            v = bv_value(rng, t[1])
             c, val, w = rng.choice(bv_spellings(v, t[1]))
             return self.build(e, c, val, w)
         if k == "A" and roll < 0.4:
@@ -1234,7 +1242,7 @@ class History(object):
         if k == "S":
             return self.build(e, "String", rng.choice(STRINGS))
         if k == "V":
-            c, val, w = rng.choice(bv_spellings(rng.randrange(2 ** t[1]), t[1]))
+            c, val, w = rng.choice(bv_spellings(bv_value(rng, t[1]), t[1]))
             return self.build(e, c, val, w)
         if k == "B":
             return self.build(e, "Bool", ("bool", rng.random() < 0.5))
@@ -1361,7 +1369,7 @@ class History(object):
         if c == 4:
             return self.build(e, "String", rng.choice(STRINGS + [None]))
         w = rng.choice([1, 2, 3, 4, 8, 12])
-        v = rng.randrange(2 ** w)
+        v = bv_value(rng, w)
         if c in (5, 6):
             ctor, val, ww = rng.choice(bv_spellings(v, w))
             return self.build(e, ctor, val, ww)
@@ -1642,6 +1650,9 @@ class History(object):
         if not c:
             return None
         root = self.rng.choice(c[-30:]) if self.rng.random() < 0.7 else self.rng.choice(c)
+        return self.rebuild_from(e, root, budget)
+
+    def rebuild_from(self, e, root, budget=40):
         memo = {}
         left = [budget]
 
@@ -1713,6 +1724,52 @@ class History(object):
             return (args[0], d, kvs)
         return args     # leaves: Symbol, Fresh(never replayed identically), constants
 
+    def g_churn(self, e):
+        """constant churn: a burst of 70..300 distinct constants between two requests for the
+        same earlier constants and for compound terms over them (front caches that are
+        flushed, resized or rebuilt must not change which object a structure is)"""
+        rng = self.rng
+        anchors = []
+        q = rng.choice(RATS)
+        anchors.append(self.build(e, "Real", rng.choice(real_spellings(q, rng))))
+        anchors.append(self.build(e, "Int", ("int", rng.choice(INTS))))
+        anchors.append(self.build(e, "String", rng.choice(STRINGS)))
+        w = rng.choice([1, 2, 4, 8])
+        c, val, ww = rng.choice(bv_spellings(bv_value(rng, w), w))
+        anchors.append(self.build(e, c, val, ww))
+        old = [i for i in self.pool[e].get(("R",), []) if self.B.nt(self.k(i)) == NTN["REAL_CONSTANT"]]
+        anchors += rng.sample(old, min(3, len(old)))
+        anchors = [i for i in anchors if self.usable(i)]
+        comp = []
+        for i in anchors[:3]:
+            t = self.tyof(i)
+            if t in (("R",), ("I",)):
+                comp.append(self.build(e, "Plus", (self.pick(e, t), i), 0))
+                comp.append(self.emitP(e, "LE", i, self.pick(e, t)))
+        kind = rng.choice(["real", "real", "real", "mixed"])
+        n = rng.randrange(70, 301)
+        for _ in range(n):
+            self.churn += 1
+            j = self.churn
+            r = rng.random() if kind == "mixed" else 0.0
+            if r < 0.55:
+                qq = Fraction(1000 + j, rng.choice([1, 7, 9, 16]))
+                self.build(e, "Real", rng.choice(real_spellings(qq, rng)))
+            elif r < 0.75:
+                self.build(e, "Int", ("int", 1000 + j))
+            elif r < 0.9:
+                self.build(e, "String", "c%d" % j)
+            else:
+                self.build(e, "BV", ("int", j % 4096), 12)
+        # the same constants and compounds again, through other spellings
+        for i in anchors + comp:
+            x = self.res[i]
+            if x.recipe is not None:
+                name, args = self.alt(e, *x.recipe)
+                self.redo(e, name, args)
+        if comp:
+            self.rebuild_from(e, rng.choice(comp))
+
     def g_normalize(self, e):
         """normalize into e an object of another environment (interleaving several sources on
         one target, whose normalizer keeps its memo) or, sometimes, one of e's own formulas"""
@@ -1737,6 +1794,7 @@ class History(object):
              "const": 1.5, "replay": 3, "rebuild": 2.5, "normalize": 1.2}
         for k in list(w):
             w[k] *= rng.choice([0.2, 1, 1, 3])
+        bursts = rng.choice([1, 1, 2, 3]) if rng.random() < 0.07 else 0
         nact = rng.choice([1, 2, 2, 3, 3, 3])
         self.active = list(range(nact))
         envw = [1.0] + [rng.choice([0.15, 0.5, 1.0]) for _ in range(nact - 1)]
@@ -1744,6 +1802,10 @@ class History(object):
         weights = [w[k] for k in names]
         while len(self.ops) < self.nops:
             e = rng.choices(self.active, envw)[0]
+            if bursts and rng.random() < 0.04:
+                bursts -= 1
+                self.g_churn(e)
+                continue
             g = rng.choices(names, weights)[0]
             if g == "bool":
                 self.g_bool(e)
@@ -1767,6 +1829,11 @@ class History(object):
                 self.rebuild(e)
             else:
                 self.g_normalize(e)
+        while bursts:           # short histories: the bursts come at the end
+            bursts -= 1
+            self.g_churn(rng.choices(self.active, envw)[0])
+            for _ in range(5):
+                self.replay(0)
 
     # ------------------------------------------------------------------ evaluation of one history
     def dag(self, root):
@@ -1815,7 +1882,13 @@ class History(object):
                 bw = str(n.bv_width())
             except Exception:
                 bw = "-"
-            rows.append("%d;%d;%s;%s;%s" % (n.node_id(), n.node_type(), ",".join(str(a.node_id()) for a in n.args()), pw, bw))
+            row = "%d;%d;%s;%s;%s" % (n.node_id(), n.node_type(), ",".join(str(a.node_id()) for a in n.args()), pw, bw)
+            if n.node_type() == 21:
+                try:
+                    row += ";%d;%s" % (n.bv_signed_value(), n.bv_bin_str())
+                except Exception as ex:
+                    row += ";" + classify(ex)
+            rows.append(row)
         syms = ",".join("%s:%d" % (hx(k), v.node_id()) for k, v in reversed(list(m.symbols.items())))
         return " ".join(rows) + " ; next=%d fresh=%d syms=%s" % (m._next_free_id, m._fresh_guess, syms)
 
@@ -1881,6 +1954,13 @@ class History(object):
                 if x.recipe and x.recipe[0] in ("Int", "Real", "Bool"):
                     sig["spelling"] = x.recipe[1][0][0]
                 V.append((sig, "op %d: %s expected %s, got %s" % (idx, self.ops_text(idx), x.exp or "a node", x.out or x.obj)))
+        # derived accessors of bit-vector constants, from the (value, width) they were built from
+        for e in range(NENV):
+            for n in self.mgr[e].formulae.values():
+                if n.node_type() == 21:
+                    pl = self.B.node[self.actual_kid(n, memo)][2]
+                    if pl[0] == "v":
+                        self._search_bv(e, n, pl[1], pl[2], V)
         # one object per structure, within each environment
         for e in range(NENV):
             bykid = {}
@@ -1898,6 +1978,31 @@ class History(object):
                     if self.mgr[e].formulae.get(c) is not x.obj:
                         V.append(({"oracle": "identity", "shape": "returned-object-not-in-table"}, "op %d" % idx))
         return V
+
+    def _search_bv(self, e, n, v, w, V):
+        b = format(v, "0%db" % w)
+        want = {
+            "bv_unsigned_value": lambda: (n.bv_unsigned_value(), v),
+            "bv2nat": lambda: (n.bv2nat(), v),
+            "bv_signed_value": lambda: (n.bv_signed_value(), v - 2 ** w if v >= 2 ** (w - 1) else v),
+            "bv_bin_str": lambda: (n.bv_bin_str(), b),
+            "bv_bin_str(reverse)": lambda: (n.bv_bin_str(reverse=True), b[::-1]),
+            "bv_str(b)": lambda: (n.bv_str("b"), b),
+            "bv_str(d)": lambda: (n.bv_str("d"), str(v)),
+            "bv_str(x)": lambda: (n.bv_str("x"), format(v, "x").zfill(w // 4)),
+            "constant_value": lambda: (n.constant_value(), v),
+            "bv_width": lambda: (n.bv_width(), w),
+        }
+        for name in sorted(want):
+            try:
+                got, exp = want[name]()
+            except Exception as ex:
+                got, exp = classify(ex), "a value"
+            if got != exp or type(got) is not type(exp):
+                shape = "zero" if v == 0 else "most-negative" if v == 2 ** (w - 1) else "all-ones" if v == 2 ** w - 1 \
+                    else "negative" if v > 2 ** (w - 1) else "positive"
+                V.append(({"oracle": "accessor", "accessor": name, "shape": shape},
+                          "env %d: %s of the constant built from (value=%d, width=%d) is %r, expected %r" % (e, name, v, w, got, exp)))
 
     def ops_text(self, idx):
         # position of op idx in self.ops = idx (one op per result)
